@@ -23,6 +23,8 @@ Verdict(c) ==
   ELSE IF c.hasJson /\ \E i \in 1..Len(c.j.locs) : ~LocOK(c.j.locs[i]) THEN "viol-json-" \o BadLoc(c.j)
   ELSE IF ~OutcomeOK(c.y, [nlines |-> c.y.nlines, linelen |-> c.y.linelen]) THEN "viol-yaml-position-outside-document"
   ELSE IF c.hasJson /\ ~OutcomeOK(c.j, [nlines |-> c.j.nlines, linelen |-> c.j.linelen]) THEN "viol-json-position-outside-document"
+  ELSE IF ~Attributed(c.op, c.y) THEN "viol-yaml-position-outside-the-offending-node"
+  ELSE IF c.hasJson /\ ~Attributed(c.op, c.j) THEN "viol-json-position-outside-the-offending-node"
   ELSE IF ~ControlOK(c) THEN "harness-control-document-rejected"
   ELSE IF ~Alike(c) THEN "viol-spellings-end-differently"
   ELSE "ok"
